@@ -186,6 +186,19 @@ func flagSetByRegistration(c *core.Ctx, flag string) string {
 	}
 	ip := absint.New(t)
 	ip.IsLog, ip.InScope = core.IsLogCall, c.InScope
+	// the delegate as its constructor makes it (helper objects it owns included)
+	if ctor := constructorOf(c, bs.recv); ctor != nil {
+		if out := ip.Run(ctor, nil, nil); out.Undecided == nil && out.Panic == nil && len(out.Ret) == 1 {
+			if made, ok := out.Ret[0].(*absint.Tok); ok {
+				for k, v := range made.Fields {
+					dlg.Fields[k] = v
+				}
+			}
+		}
+	}
+	if idFn := c.Func("util/reflectx", "Id"); idFn != nil {
+		t.callee[idFn] = func(ip *absint.Interp, a []absint.Value) absint.Value { return absint.Str("type-of:P") }
+	}
 	args := []absint.Value{dlg, p}
 	for k := 2; k < len(bs.register.Params); k++ {
 		args = append(args, absint.Str("name"))
